@@ -302,4 +302,34 @@ theorem chunks_lines (num : Nat) (ls : List Bytes) (hnl : ∀ l ∈ ls, 10 ∉ l
     rw [List.drop_left]
     exact ih (fun l' h' => hnl l' (by simp [h'])) (fun l' h' => hlen l' (by simp [h']))
 
+theorem chunks_length_lt (num : Nat) (s : Bytes) : ∀ c ∈ chunks num s, c.length < num := by
+  induction hn : s.length using Nat.strongRecOn generalizing s with
+  | _ n ih =>
+    by_cases hstop : s = [] ∨ num < 2
+    · rw [chunks_nil _ _ hstop]; simp
+    · rw [chunks_cons _ _ hstop]
+      have hle := takeLine_length_le (num - 1) s
+      have hn2 : 2 ≤ num := by
+        have : ¬ num < 2 := fun e => hstop (Or.inr e)
+        omega
+      intro c hc
+      rcases List.mem_cons.mp hc with e | hc
+      · subst e; omega
+      · have hpos : 1 ≤ (takeLine (num - 1) s).length := by
+          obtain ⟨c0, t, rfl⟩ : ∃ c0 t, s = c0 :: t := by
+            cases s with
+            | nil => exact absurd (Or.inl rfl) hstop
+            | cons c0 t => exact ⟨c0, t, rfl⟩
+          obtain ⟨m, hm⟩ : ∃ m, num - 1 = m + 1 := ⟨num - 2, by omega⟩
+          rw [hm]; exact takeLine_pos m c0 t
+        have hs0 : s.length ≠ 0 := fun e => hstop (Or.inl (List.eq_nil_of_length_eq_zero e))
+        exact ih (s.drop (takeLine (num - 1) s).length).length
+          (by subst hn; simp only [List.length_drop]; omega) _ rfl c hc
+
+theorem parseFile_spec (cfg : Cfg) (ok : CfgOk cfg) (h : Handler) (junk content : Bytes) (hj : junk.length = cfg.maxLine) :
+    parseFile cfg h junk content =
+      .ok (refLines cfg h Abs.init ((chunks cfg.readerNum content).map fun f => f.takeWhile (· ≠ 0))).error
+          (refLines cfg h Abs.init ((chunks cfg.readerNum content).map fun f => f.takeWhile (· ≠ 0))).events :=
+  parseFills_spec cfg ok h junk _ hj (chunks_length_lt cfg.readerNum content)
+
 end IwModel.Ini
